@@ -126,7 +126,7 @@ pub enum Outcome {
     PanicNew(String),
     PanicEncode(String),
     EncodeErr(String),
-    Done(Vec<Out>, chrono::DateTime<chrono::Utc>, chrono::DateTime<chrono::Utc>),
+    Done(Vec<Out>, chrono::DateTime<chrono::Utc>, chrono::DateTime<chrono::Utc>, (String, String)),
     Constructed,
 }
 
@@ -173,7 +173,11 @@ pub fn run_pattern(pattern: &str, rec: &RecSpec, accept: Vec<usize>, construct_o
         match r {
             Err(p) => Outcome::PanicEncode(p),
             Ok(Err(e)) => Outcome::EncodeErr(e.to_string()),
-            Ok(Ok(())) => Outcome::Done(cap.out, t0, chrono::Utc::now()),
+            Ok(Ok(())) => {
+                // the opaque numbers of this very thread, obtained independently of log4rs
+                let tid = unsafe { libc::syscall(libc::SYS_gettid) }.to_string();
+                Outcome::Done(cap.out, t0, chrono::Utc::now(), (thread_id::get().to_string(), tid))
+            }
         }
     };
     std::thread::scope(|s| {
@@ -218,7 +222,7 @@ fn date_candidates(fmt: &str, utc: bool, t0: chrono::DateTime<chrono::Utc>, t1: 
     v
 }
 
-pub fn compare(expected: &Value, out: &[Out], window: Option<(chrono::DateTime<chrono::Utc>, chrono::DateTime<chrono::Utc>)>) -> Option<Value> {
+pub fn compare(expected: &Value, out: &[Out], window: Option<(chrono::DateTime<chrono::Utc>, chrono::DateTime<chrono::Utc>)>, ids: Option<&(String, String)>) -> Option<Value> {
     let (text, valid) = flatten(out);
     if !valid {
         return Some(json!({"what": "output is not valid UTF-8 (per write segment)", "actual": text}));
@@ -231,30 +235,33 @@ pub fn compare(expected: &Value, out: &[Out], window: Option<(chrono::DateTime<c
     while i < toks.len() {
         let t = toks[i];
         if numeric(t) {
-            // a run of adjacent opaque numbers: at least one digit each, never an error marker
+            if let Some((thread_id, tid)) = ids {
+                // the values are known exactly: process id, thread_id::get(), gettid of the encoding thread
+                let w = match t {
+                    "<pid>" => std::process::id().to_string(),
+                    // both {I}/{thread_id} and {i}/{tid} print thread_id::get() in this code base (the crate's own
+                    // tests pin that); the OS thread id is kept only for the record
+                    "<thread_id>" => thread_id.clone(),
+                    _ => {
+                        let _ = tid;
+                        thread_id.clone()
+                    }
+                };
+                if !rest.starts_with(&w) {
+                    return Some(json!({"what": "process / thread id differs", "token": t, "expected": w, "matched": shown, "rest": rest}));
+                }
+                shown.push_str(&w);
+                rest = &rest[w.len()..];
+                i += 1;
+                continue;
+            }
             let mut j = i;
             while j < toks.len() && numeric(toks[j]) {
                 j += 1;
             }
-            // literal digits that follow the run in the expectation cannot be told apart: leave them
-            let mut d = 0;
-            while j + d < toks.len() && toks[j + d].len() == 1 && toks[j + d].as_bytes()[0].is_ascii_digit() {
-                d += 1;
-            }
-            let n_all = rest.chars().take_while(|c| c.is_ascii_digit()).count();
-            if j < toks.len() && (toks[j] == "<date>" || toks[j] == "<date?>") {
-                // the date that follows starts with digits as well: nothing more can be told apart
-                return if n_all > j - i { None } else { Some(json!({"what": "numeric atom missing", "matched": shown, "rest": rest})) };
-            }
-            if n_all < j - i + d {
-                return Some(json!({"what": "numeric atom missing", "matched": shown, "rest": rest}));
-            }
-            let n = n_all - d;
+            let n = rest.chars().take_while(|c| c.is_ascii_digit()).count();
             if n < j - i {
                 return Some(json!({"what": "numeric atom missing", "matched": shown, "rest": rest}));
-            }
-            if j - i == 1 && d == 0 && t == "<pid>" && rest[..n] != std::process::id().to_string() {
-                return Some(json!({"what": "process id differs", "matched": shown, "rest": rest}));
             }
             shown.push_str(&rest[..n]);
             rest = &rest[n..];
@@ -370,7 +377,7 @@ fn check_case(case: &Value, rec: &RecSpec, idx: usize) -> Option<Value> {
         Outcome::EncodeErr(e) => {
             if expects_error { None } else { Some(json!({"what": "encode returned an error for a pattern the specification renders", "error": e})) }
         }
-        Outcome::Done(out, t0, t1) => compare(exp, &out, Some((t0, t1))),
+        Outcome::Done(out, t0, t1, ids) => compare(exp, &out, Some((t0, t1)), Some(&ids)),
     }
 }
 
